@@ -621,3 +621,23 @@ pub fn make_tamper(devs: Vec<Dev>, applied: Rc<RefCell<Vec<bool>>>) -> Tamper {
         SendAction::Deliver(cur)
     })
 }
+
+/// All 128-bit fields of a decoded message (u128 values; 16-byte arrays read
+/// big-endian, the convention of `block_to_u128`).
+pub fn collect_u128(v: &V, out: &mut Vec<u128>) {
+    match v {
+        V::Seq(items) | V::Tup(items) => items.iter().for_each(|x| collect_u128(x, out)),
+        V::Opt(Some(x)) => collect_u128(x, out),
+        V::U128(x) => out.push(*x),
+        V::Arr(b) if b.len() == 16 => out.push(u128::from_be_bytes(b.as_slice().try_into().expect("16 bytes"))),
+        _ => {}
+    }
+}
+
+/// Occurrences of `needle` at any byte offset of `hay`.
+pub fn count_sub(hay: &[u8], needle: &[u8]) -> usize {
+    if needle.is_empty() || hay.len() < needle.len() {
+        return 0;
+    }
+    hay.windows(needle.len()).filter(|w| *w == needle).count()
+}
